@@ -41,10 +41,69 @@
       - any node list, any expression including macro calls, includes, block.Super, whole
       sub-template executions - leaves any context of the stack with a different flag than it
       had: only the lexical region of an autoescape tag runs with a changed flag. *)
+(* ---- second part (statements appended below) ---- *)
+(* Property C02 - autoescape, from the SOURCE TEXT (continues Props/C02.v).
+
+   Props/C02.v proves: a compiled template without opt-outs ([ok_template], a predicate on the
+   tree the parser built), run over an unmarked context by a set whose run-time compiles are
+   without opt-outs ([lazy_ok], a hypothesis about the compiler), writes output that is in
+   escaped form as a whole.  Here both hypotheses are discharged from what the template author
+   writes: a scan of the TOKENS of the sources (Spec/SpecTaint3.v [no_optout_tokens], through
+   the lexer [no_optout_source], over every file the loaders hold [no_optout_world]).
+
+   In plain words: if no source - the entry and every file the loaders hold - contains
+     - literal text with a byte that needs escaping,
+     - the pipe symbol followed by the identifier safe,
+     - after a tag opening: autoescape off; filter with anything but allowed names (safe escape e
+       lower length wordcount integer float) separated by pipes, i.e. with a parameter or
+       another filter; ssi other than ssi "file" parsed; include of a non-literal name (unless
+       lazy includes are allowed, [lz] = true),
+   then whatever the lexer, the parser (with every extends / include / import / ssi parsed it
+   resolves through the loaders, to any depth) and the executor (with every lazy include it
+   compiles at run time) make of it over ANY unmarked context: if rendering succeeds, the
+   output is in escaped form as a whole ([html_clean]).  No hypothesis about the compiler or
+   the compiled tree is left; what is assumed of the Go side is only that the caller's context
+   is unmarked data and the set's globals satisfy [ctx_ok] (e.g. there are none).
+
+   The scan is sufficient, not necessary (it also looks at tokens a comment tag skips, and
+   rejects  |safe  inside a filter tag's chain).  Every item of the list is needed: each of
+   the rejected sources of C02c_optouts_rejected_and_leak writes the hostile text raw.
+
+   What the theorems contribute:
+   1. C02c_compile_ok_template (+ _file, which also covers the macros a file exports, and
+      C02c_parse_ok_nodes for the parser's own entry below the lexer): from the scan to
+      [ok_template], for both values of [lz].  C02c_lazy_ok: the scan of the set's files gives
+      [lazy_ok] - the hypothesis of Props/C02.v about run-time compiles is now a theorem.
+   2. C02_source_level (+ _file for FromFile, _execute for any fuel / state / the buffered
+      Template.ExecuteWriter): the whole pipeline.
+   3. C02c_lazy_allowed_is_weaker: allowing lazy includes only weakens the scan, so a world
+      scanned with [lz] = false can be used with either theorem.
+   4. Witnesses: a world with a base, a child and an included file scanned and rendered over a
+      hostile context; a lazy include; the opt-outs, rejected and leaking; constructs that look
+      like opt-outs and are not.
+
+   Part II - sources whose own text contains markup (real templates).  The scan is the same with
+   three changes (Spec/SpecTaint3.v): literal text is accepted when it is in a given decidable
+   set [lit] (instead of: needs no escaping); the filter tag's names are [markup_tag_filters];
+   the spaceless tag is rejected (it rewrites the text between tags).  The conclusion is that of
+   Props/C02.v Part II: the output is a CONCATENATION OF PIECES OF TEXTS OF [lit] AND OF CHUNKS IN
+   ESCAPED FORM ([pieces lit o]) - every byte of context text reaches the output inside an
+   escaped-form chunk.
+   5. C02c_compile_ok_template_m, C02c_lazy_m: from the scan to [ok_template_m] / [lazy_m].
+      C02_source_level_markup (+ _file): the whole pipeline, for any [lit] that contains the
+      eight texts a templatetag tag can write.
+   6. C02_source_level_own_text (+ _file): with [lit] := the text tokens the lexer finds in the
+      sources themselves ([lit_of]), the scan does not look at literal text at all, and the
+      statement reads: whatever a template set without opt-out tokens writes is made of pieces
+      of its own literal text and of escaped chunks.
+   7. Witness: the base / child pair of Spec/SpecTaint2.v with elements and a quoted attribute,
+      rendered over the hostile context; and, by 6 and C02_pieces_no_foreign_byte, it never
+      writes a single quote, whatever the context holds. *)
 From PV Require Import Lib.Bytes Model.Value Model.Doc Model.Exec Model.Filters Model.Api Spec.SpecEsc Spec.SpecTaint.
 From PV Require Import Spec.SpecTaint2.
 From PV Require Import Tie.C02 Tie.C02b.
-
+From PV Require Import Lib.Bytes Model.Value Model.Doc Model.ParseDoc Model.Exec Model.Api Spec.SpecEsc Spec.SpecTaint Spec.SpecTaint2 Spec.SpecTaint3.
+From PV Require Import Tie.C02c.
 Open Scope N_scope.
 
 (* ---------- 1. {{ e }} ---------- *)
@@ -567,3 +626,225 @@ Example C02b_witness_markup_no_quote : forall t g ctx o,
   ok_template_m e2m_lit false t = true -> unmarked_ctx ctx = true ->
   run_template e2m_world t g ctx = OOk o -> ~ In 39 o.
 Proof. exact tie_e2m_never_writes_quote. Qed.
+
+
+(* ==================== second part ==================== *)
+
+(* ---------- 1. from the scan to the hypotheses of Props/C02.v ---------- *)
+(* newTemplate on a source (a string template when isstr): any fuel, any name, any state *)
+Theorem C02c_compile_ok_template : forall lz se f name isstr src g t g',
+  no_optout_set lz se = true -> no_optout_source lz src = true ->
+  compile_src se f name isstr src g = Ok (t, g') -> ok_template lz t = true.
+Proof. exact tie_compile_src_ok_template. Qed.
+Print Assumptions C02c_compile_ok_template.
+
+(* set.FromFile: every file of a scanned set *)
+Theorem C02c_compile_file_ok_template : forall lz se f name g t g',
+  no_optout_set lz se = true ->
+  compile_file se f name g = Ok (t, g') ->
+  ok_template lz t = true /\ forallb (fun m => ok_macro lz (snd m)) (tpl_exported t) = true.
+Proof. exact tie_compile_file_ok_template. Qed.
+Print Assumptions C02c_compile_file_ok_template.
+
+(* below the lexer: parseDocument on any token list that passes the scan *)
+Theorem C02c_parse_ok_nodes : forall lz se f tst g toks ns st',
+  no_optout_set lz se = true -> no_optout_tokens lz toks = true ->
+  t_blocks tst = [] -> t_exported tst = [] -> t_parent tst = None ->
+  parse_doc se f (tst, g) (annotate None toks) = Ok (ns, st') -> ok_nodes lz ns = true.
+Proof. exact tie_parse_doc_ok_nodes. Qed.
+Print Assumptions C02c_parse_ok_nodes.
+
+(* what the set compiles at run time is without opt-outs *)
+Theorem C02c_lazy_ok : forall lz se, no_optout_set lz se = true -> lazy_ok lz se.
+Proof. exact tie_lazy_ok_of_set. Qed.
+Print Assumptions C02c_lazy_ok.
+
+(* ---------- 2. the whole pipeline ---------- *)
+(* set.FromString(src) then Execute(ctx) *)
+Theorem C02_source_level : forall lz w src ctx o,
+  no_optout_world lz w = true -> no_optout_source lz src = true ->
+  ctx_ok lz (w_globals w) = true -> unmarked_ctx ctx = true ->
+  api_render_string w src ctx = OOk o -> html_clean o = true.
+Proof. exact tie_source_level_string. Qed.
+Print Assumptions C02_source_level.
+
+(* set.FromFile(name) then Execute(ctx): the entry is one of the world's files *)
+Theorem C02_source_level_file : forall lz w name ctx o,
+  no_optout_world lz w = true ->
+  ctx_ok lz (w_globals w) = true -> unmarked_ctx ctx = true ->
+  api_render_file w name ctx = OOk o -> html_clean o = true.
+Proof. exact tie_source_level_file. Qed.
+Print Assumptions C02_source_level_file.
+
+(* any set, any fuel, any compile-wide and execution state; Template.ExecuteWriter *)
+Theorem C02_source_level_execute : forall lz se globals fc fe name isstr src gc t gc' nd g ctx o st',
+  no_optout_set lz se = true -> no_optout_source lz src = true ->
+  ctx_ok lz globals = true -> unmarked_ctx ctx = true ->
+  compile_src se fc name isstr src gc = Ok (t, gc') ->
+  exec_template se globals fe (mkM [] nd g) t ctx = (o, Ok st') -> html_clean o = true.
+Proof. exact tie_source_level_execute. Qed.
+Print Assumptions C02_source_level_execute.
+
+(* ---------- 3. the two scans ---------- *)
+Theorem C02c_lazy_allowed_is_weaker : forall se src,
+  (no_optout_source false src = true -> no_optout_source true src = true) /\
+  (no_optout_set false se = true -> no_optout_set true se = true).
+Proof. exact tie_no_optout_mono. Qed.
+Print Assumptions C02c_lazy_allowed_is_weaker.
+
+(* ---------- 4. non-vacuity ---------- *)
+(* the world of Spec/SpecTaint3.v: files base, inc, child; child extends base, defines and calls
+   a macro with a default taken from the context, prints block.Super, includes inc with
+   `with ... only`, uses spaceless, a filter tag and cycle.  Every file passes the scan (so the
+   hypotheses of C02_source_level_file hold), x is hostile (the bytes 39 34 62 60 38, then
+   script, then 62) and unmarked, rendering child succeeds, and - as the theorem says - the output is in
+   escaped form; it contains the escaped x *)
+Example C02c_witness_end_to_end :
+  no_optout_world false s3_world = true /\ ctx_ok false (w_globals s3_world) = true /\
+  unmarked_ctx s3_ctx = true /\ html_clean s3_hostile = false /\
+  match api_render_file s3_world s3_child s3_ctx with
+  | OOk o => contains (filter_escape s3_hostile) o && html_clean o && Nat.ltb 100 (length o)
+  | _ => false
+  end = true.
+Proof. vm_compute. repeat split; reflexivity. Qed.
+
+(* the same source given as a string template (FromString), over the same world *)
+Example C02c_witness_string :
+  no_optout_source false e2e_child = true /\
+  match api_render_string s3_world e2e_child s3_ctx with
+  | OOk o => contains (filter_escape s3_hostile) o && html_clean o
+  | _ => false
+  end = true.
+Proof. vm_compute. split; reflexivity. Qed.
+
+(* a lazy include: {% include n %}{{ x }} with n = "inc" from the context.  It passes the scan
+   that allows lazy includes (and not the other one); the world's files pass it too; the file
+   named at run time is compiled and run, and the output is in escaped form *)
+Example C02c_witness_lazy :
+  no_optout_source true s3_lazy = true /\ no_optout_source false s3_lazy = false /\
+  no_optout_world true s3_world = true /\ unmarked_ctx s3_lazy_ctx = true /\
+  match api_render_string s3_world s3_lazy s3_lazy_ctx with
+  | OOk o => contains (filter_escape s3_hostile ++ [33]) o && html_clean o
+  | _ => false
+  end = true.
+Proof. vm_compute. repeat split; reflexivity. Qed.
+
+(* every item of the scan's list is needed: x|safe, autoescape off, a filter tag with a
+   parameter, firstof x|safe, a plain ssi of a file with markup, literal markup - each is
+   rejected (with or without lazy includes), and each writes text that is not in escaped form *)
+Example C02c_optouts_rejected_and_leak :
+  forallb (fun src => negb (no_optout_source false src) && negb (no_optout_source true src) &&
+                      match api_render_string s3_raw_world src s3_ctx with
+                      | OOk o => negb (html_clean o)
+                      | _ => false
+                      end)
+          [s3_src_safe; s3_src_off; s3_src_filter; s3_src_firstof; s3_src_ssi; s3_src_markup] = true.
+Proof. vm_compute. reflexivity. Qed.
+
+(* ... while these are fine: a variable called safe, autoescape on, a filter tag over allowed
+   names, ssi parsed *)
+Example C02c_lookalikes_accepted :
+  no_optout_source false s3_src_fine = true /\
+  match api_render_string s3_world s3_src_fine s3_lazy_ctx with
+  | OOk o => contains (filter_escape s3_hostile) o && html_clean o
+  | _ => false
+  end = true.
+Proof. vm_compute. split; reflexivity. Qed.
+
+(* ================= Part II: sources whose own text contains markup ================= *)
+(* ---------- 5. from the scan to the hypotheses, and the whole pipeline ---------- *)
+Theorem C02c_compile_ok_template_m : forall lit lz se f name isstr src g t g',
+  templatetags_in lit = true ->
+  no_optout_set_m lit lz se = true -> no_optout_source_m lit lz src = true ->
+  compile_src se f name isstr src g = Ok (t, g') -> ok_template_m lit lz t = true.
+Proof. exact tie_compile_src_ok_template_m. Qed.
+Print Assumptions C02c_compile_ok_template_m.
+
+Theorem C02c_compile_file_ok_template_m : forall lit lz se f name g t g',
+  templatetags_in lit = true ->
+  no_optout_set_m lit lz se = true ->
+  compile_file se f name g = Ok (t, g') ->
+  ok_template_m lit lz t = true /\ forallb (fun m => ok_macro_m lit lz (snd m)) (tpl_exported t) = true.
+Proof. exact tie_compile_file_ok_template_m. Qed.
+Print Assumptions C02c_compile_file_ok_template_m.
+
+Theorem C02c_lazy_m : forall lit lz se,
+  templatetags_in lit = true -> no_optout_set_m lit lz se = true -> lazy_m lit lz se.
+Proof. exact tie_lazy_m_of_set. Qed.
+Print Assumptions C02c_lazy_m.
+
+Theorem C02_source_level_markup : forall lit lz w src ctx o,
+  templatetags_in lit = true ->
+  no_optout_world_m lit lz w = true -> no_optout_source_m lit lz src = true ->
+  ctx_m lit lz (w_globals w) -> unmarked_ctx ctx = true ->
+  api_render_string w src ctx = OOk o -> pieces lit o.
+Proof. exact tie_source_level_markup_string. Qed.
+Print Assumptions C02_source_level_markup.
+
+Theorem C02_source_level_markup_file : forall lit lz w name ctx o,
+  templatetags_in lit = true ->
+  no_optout_world_m lit lz w = true ->
+  ctx_m lit lz (w_globals w) -> unmarked_ctx ctx = true ->
+  api_render_file w name ctx = OOk o -> pieces lit o.
+Proof. exact tie_source_level_markup_file. Qed.
+Print Assumptions C02_source_level_markup_file.
+
+Theorem C02c_markup_lazy_allowed_is_weaker : forall lit se src,
+  (no_optout_source_m lit false src = true -> no_optout_source_m lit true src = true) /\
+  (no_optout_set_m lit false se = true -> no_optout_set_m lit true se = true).
+Proof. exact tie_markup_no_optout_mono. Qed.
+Print Assumptions C02c_markup_lazy_allowed_is_weaker.
+
+(* ---------- 6. the sources' own text as [lit] ---------- *)
+(* [lit_of srcs] contains the templatetag texts ... *)
+Theorem C02c_own_text_has_templatetags : forall srcs, templatetags_in (lit_of srcs) = true.
+Proof. exact tie_lit_of_templatetags. Qed.
+Print Assumptions C02c_own_text_has_templatetags.
+
+(* ... and every text token of the sources, so literal text is not scanned: the output is made
+   of pieces of the sources' own text tokens (the entry and every file of the world; or a
+   templatetag text) and of escaped chunks *)
+Theorem C02_source_level_own_text : forall lz w src ctx o,
+  no_optout_world_t lz w = true -> no_optout_source_t lz src = true ->
+  ctx_m (lit_of (src :: world_sources w)) lz (w_globals w) -> unmarked_ctx ctx = true ->
+  api_render_string w src ctx = OOk o -> pieces (lit_of (src :: world_sources w)) o.
+Proof. exact tie_source_level_own_text. Qed.
+Print Assumptions C02_source_level_own_text.
+
+Theorem C02_source_level_own_text_file : forall lz w name ctx o,
+  no_optout_world_t lz w = true ->
+  ctx_m (lit_of (world_sources w)) lz (w_globals w) -> unmarked_ctx ctx = true ->
+  api_render_file w name ctx = OOk o -> pieces (lit_of (world_sources w)) o.
+Proof. exact tie_source_level_own_text_file. Qed.
+Print Assumptions C02_source_level_own_text_file.
+
+(* ---------- 7. non-vacuity ---------- *)
+(* the child of Spec/SpecTaint2.v (a macro that wraps its argument in a b element with a quoted
+   attribute, its call, block.Super inside a p element, the macro's result escaped as a whole by a
+   filter tag) extends a base with html / body / i elements.  World and child pass the scan that
+   does not look at text, and also the scan for the eight literal texts of [e2m_lits] extended
+   by the templatetag texts; rendering over the hostile x succeeds; the escaped x is in the
+   output, which as a whole is NOT in escaped form (it contains the template's markup) *)
+Example C02c_witness_markup :
+  no_optout_world_t false e2m_world = true /\ no_optout_source_t false e2m_child = true /\
+  (let lit := fun v => e2m_lit v || str_in v templatetag_texts in
+   templatetags_in lit && no_optout_world_m lit false e2m_world && no_optout_source_m lit false e2m_child) = true /\
+  unmarked_ctx e2m_ctx = true /\
+  match api_render_string e2m_world e2m_child e2m_ctx with
+  | OOk o => contains (filter_escape ([39; 34; 62; 60; 38] ++ [115; 99; 114; 105; 112; 116; 62])) o && negb (html_clean o)
+  | _ => false
+  end = true.
+Proof. vm_compute. repeat split; reflexivity. Qed.
+
+(* spaceless is what Part II rejects and Part I accepts *)
+Example C02c_witness_spaceless :
+  no_optout_source false e2e_child = true /\ no_optout_source_t false e2e_child = false.
+Proof. vm_compute. split; reflexivity. Qed.
+
+(* by C02_source_level_own_text and C02_pieces_no_foreign_byte (Props/C02.v): no text token of
+   those sources contains a single quote, so no rendering of the child, over any unmarked
+   context, writes one *)
+Example C02c_witness_markup_no_quote : forall ctx o,
+  unmarked_ctx ctx = true -> api_render_string e2m_world e2m_child ctx = OOk o -> ~ In 39 o.
+Proof. exact tie_e2m_source_never_writes_quote. Qed.
+Print Assumptions C02c_witness_markup_no_quote.
